@@ -110,7 +110,7 @@ def _worker_chunk(args):
                 for kk, vv in v.items():
                     res['stats'][f'{k}.{kk}'] += vv
         if out['violations']:
-            if len(res['fail']) < 8:
+            if len(res['fail']) < 12:
                 res['fail'].append((run, case, out['violations']))
             else:
                 res['fail'].append((run, None, [{'sig': v['sig']} for v in out['violations']]))
@@ -452,7 +452,7 @@ def run_batch(prop, tier, master, nruns, workers, wall_cap_s, selftest_n):
         for v in viols:
             e = by_sig.setdefault(v['sig'], {'runs': [], 'cases': [], 'v': None})
             e['runs'].append(run)
-            if case is not None and 'oracle' in v and len(e['cases']) < 4:
+            if case is not None and 'oracle' in v and len(e['cases']) < 16:
                 e['cases'].append((case, v))
     reports = []
     unreproducible = 0
